@@ -30,6 +30,7 @@ import Driver.ArrXH
 import Driver.CrawlCH
 import Driver.OWidenH
 import Driver.DisH
+import Driver.ExactIncrH
 
 /-!
   crabdrv : line-protocol driver.  Reads cases on stdin, one per line
@@ -71,7 +72,7 @@ def dispatch (comp op : String) (args res : List Sexp) : Verdict :=
   | "rprog" => handleRprog op args res
   | "idom" => handleIDom op args res
   | "prog" => handleProg op args res
-  | "exact" => handleExact op args res
+  | "exact" => handleExactBoth op args res
   | "xf" => handleXf op args res
   | "live" => handleLive op args res
   | "bwd" => handleBwd op args res
